@@ -161,6 +161,10 @@ func (k *KeyPair) Public() crypto.PublicKey {
 
 // SignAs signs msg under the definition of COSE algorithm alg (which may differ from k.Alg: cross-product streams).
 func (k *KeyPair) SignAs(alg int, msg []byte) []byte {
+	if kindOfAlg(alg) != k.Kind {
+		// an algorithm this kind of key cannot sign under (a combination of deviations): the key's own algorithm
+		alg = k.Alg
+	}
 	h := algHash(alg)
 	switch k.Kind {
 	case "ec":
